@@ -4,6 +4,7 @@ From SV Require Import Lib.Base Gen.Consts.
 From SV Require Import Model.Seq32 Model.Assembler Model.TcpBuf Model.TcpTypes Model.Tcp.
 From SV Require Import Proofs.TcpSendBase Proofs.TcpSendInv Proofs.TcpLiveBase Proofs.TcpLiveProofs.
 From SV Require Import Proofs.TcpBurstBase Proofs.TcpBurstStep Proofs.TcpBurstEmit Proofs.TcpBurstProofs.
+From SV Require Import Proofs.TcpBurstExamples.
 From SV Require Import Props.C03tcp.
 
 Check (C03_tcp_burst_step : forall cx s s' p tags,
@@ -28,3 +29,17 @@ Check (C03_tcp_ingress_reply_bounded : forall cx s ip r s' reply tags,
   (length (replies reply) <= 1)%nat /\
   forall p, reply = Some p ->
     r_payload (snd p) = [] /\ (r_control (snd p) = CNone \/ r_control (snd p) = CRst)).
+
+Check (C03_tcp_burst_example :
+  binv (bx_cx 1000 1500) ex1 /\
+  s_state ex1 = Established /\ rb_len (s_tx_buffer ex1) = 200 /\ s_remote_mss ex1 = 48 /\
+  mu (bx_cx 1000 1500) ex1 = 7 /\ burst_bound (bx_cx 1000 1500) ex1 = 11 /\
+  ex1_poll = Some ([48; 48; 48; 48; 8], true, 1)).
+
+Check (C03_tcp_burst_keep_alive_zero_refuted :
+  exists cx s, binv_core cx s /\ mtu_ok cx /\ s_keep_alive s = Some 0 /\
+               forall n, exists s', burst_run cx s n s').
+
+Check (C03_tcp_burst_small_mtu_refuted :
+  exists cx s, binv_core cx s /\ ka_pos s /\ cx_ip_mtu cx = 52 /\ emss cx s = 0 /\
+               forall n, exists s', burst_run cx s n s').
